@@ -388,12 +388,16 @@ pub fn gen_c15<W: Write>(out: &mut W, thorough: bool, seed: u64) {
             }
         }
         // dual abscissae
-        let xd = lo + (hi - lo) * r.unit();
-        writeln!(out, "dual 200 {} 2 xa {} xb {} 0", hf(xd), hf(1.0), hf(-0.5)).unwrap();
-        writeln!(out, "dual2 201 {} 2 xa {} xb {} {} {} {} {} 0", hf(xd), hf(1.0), hf(-0.5), hf(0.25), hf(0.0), hf(0.0), hf(-0.125)).unwrap();
-        for m in 0..2 {
-            writeln!(out, "ppev 1 {} H200", m).unwrap();
-            writeln!(out, "ppev 1 {} H201", m).unwrap();
+        // a random point, the two end points (the right one is where the end-point rule applies) and a knot
+        let xds = [lo + (hi - lo) * r.unit(), lo, hi, t[t.len() / 2]];
+        for (q, xd) in xds.iter().enumerate() {
+            let (i1, i2) = (200 + 2 * q, 201 + 2 * q);
+            writeln!(out, "dual {} {} 2 xa {} xb {} 0", i1, hf(*xd), hf(1.0), hf(-0.5)).unwrap();
+            writeln!(out, "dual2 {} {} 2 xa {} xb {} {} {} {} {} 0", i2, hf(*xd), hf(1.0), hf(-0.5), hf(0.25), hf(0.0), hf(0.0), hf(-0.125)).unwrap();
+            for m in 0..2 {
+                writeln!(out, "ppev 1 {} H{}", m, i1).unwrap();
+                writeln!(out, "ppev 1 {} H{}", m, i2).unwrap();
+            }
         }
         // mismatched site counts are reported as errors
         if tau.len() >= 2 {
